@@ -423,7 +423,8 @@ CLASSES = {
         lambda e: e["kind"] == "panic" and in_file(e, TYPING) and "Assignment to array is not implemented yet" in e["msg"],
     # F48: unit value (Value::None) moved / stored by the bytecode generator
     "unit-value-in-if-arm-or-let":
-        lambda e: e["kind"] == "panic" and e["stage"] == "emit_bytecode" and in_file(e, BCGEN) and e["msg"].startswith("value none not found"),
+        lambda e: e["kind"] == "panic" and in_file(e, BCGEN) and e["msg"].startswith("value none not found")
+        and (e["stage"] == "emit_bytecode" or (e["stage"] == "emit_wasm" and "stage" in toks_of(e["text"]))),
     # F49: assignment whose target typing accepts but mirgen has no variable for
     "assignment-target-not-a-variable":
         lambda e: e["kind"] == "panic" and e["stage"] in EMIT and in_file(e, MIRGEN)
@@ -432,13 +433,15 @@ CLASSES = {
     "default-value-not-type-checked":
         lambda e: e["kind"] == "panic" and e["stage"] in EMIT and in_file(e, MIRGEN)
         and (e["msg"].startswith("type inference failed for expr") or e["msg"].startswith("assertion failed: tys.windows(2)"))
-        and (has_default_param(e["text"]) or has_incomplete_record(e["text"]) or e["parse_errors"]),
+        and (has_default_param(e["text"]) or has_incomplete_record(e["text"]) or e["parse_errors"])
+        or (e["kind"] == "panic" and e["stage"] == "emit_bytecode" and in_file(e, BCGEN) and has_default_param(e["text"])
+            and re.match(r"value extfun \S+ ! not found", e["msg"]) is not None),
     # F51: occurs check misses function / code / ref types: cyclic type, infinite recursion (stack overflow whatever the stack size)
     "cyclic-type-infinite-recursion":
         lambda e: e["kind"] == "abort" and e["stage"] in ("typecheck",) + EMIT and e.get("still_aborts_with_big_stack", False),
     # F52: lower_macro_expand takes the first QualifiedPath among ALL children (arguments included) as the callee
     "macro-callee-taken-from-arguments":
-        lambda e: e["kind"] == "badspan" and re.search(r'Variable "[^"]*\$[^"]*" not found', e["msg"]) is not None
+        lambda e: e["kind"] == "badspan" and re.search(r'Variable "[^"]*" not found', e["msg"]) is not None
         and "!" in toks_of(e["text"]) and "::" in toks_of(e["text"]) and span_reversed(e["msg"]),
     # F53: typing Proj: `vec.len() < idx` instead of `<=`
     "tuple-projection-index-equals-arity":
@@ -466,6 +469,14 @@ CLASSES["fabricated-span-0-1-inside-multibyte-char"] = (
     # F56: typing.rs Error::get_labels invents the span 0..1 when neither side of a type mismatch has a location
     lambda e: e["kind"] == "badspan" and re.match(r"0\.\.1 len \d+ : Type mismatch", e["msg"]) is not None
     and len(e["text"]) > 0 and len(e["text"][0].encode("utf-8")) > 1)
+
+
+CLASSES["compile-continues-after-parse-errors"] = (
+    # F57: Context::emit_mir hands the recovered AST (with Expr::Error placeholders) to the whole compiler and looks at the parse
+    #      errors only afterwards.  Only for texts WITH parse errors, only panics of the compile entry points that the type check
+    #      of the same text (language-server path) does not show.
+    lambda e: e["kind"] == "panic" and e["stage"] in EMIT and e["parse_errors"] and not e.get("typecheck_panics", False)
+    and (in_file(e, MIRGEN) or in_file(e, BCGEN) or in_file(e, VMRS) or in_file(e, TYPING)))
 
 
 def strip_comment_text(text):
@@ -787,13 +798,14 @@ def run(ck):
                 continue
             sts = r.get("st", [])
             perr = any(s_[0] == "parse_to_expr" and s_[1] == "D" for s_ in sts)
+            tpanic = any(s_[0] == "typecheck" and s_[1] == "P" for s_ in sts)
             for (stage, oc, n, nbad, msg, first) in sts:
                 if oc == "-":
                     continue
                 ostats["stage_calls"] += 1
                 if oc == "P":
                     f_, m_ = split_panic(msg)
-                    ev = {"kind": "panic", "stage": stage, "file": f_, "msg": m_, "text": t, "parse_errors": perr}
+                    ev = {"kind": "panic", "stage": stage, "file": f_, "msg": m_, "text": t, "parse_errors": perr, "typecheck_panics": tpanic}
                     report(origin, t, ev, "panic", f"{stage}: {f_}: {m_[:300]}")
                 elif oc == "N":
                     oracle_bad.append((origin, t, "error-without-diagnostic", stage))
